@@ -1,7 +1,7 @@
 from common import COMMON_TB
 
 PROP = {
-    "suites": ["c06"],
+    "suites": ["c06", "smcli"],
     "lean_modules": ["Lc.Props.C06", "Lc.Lemmas.Prefix"],
     "leanchecker": True,
     "trusted_base": COMMON_TB + [
